@@ -14,14 +14,14 @@ from ..symx import Expander, TupleV, ListV
 from ..ncf import M
 from .. import ncf, anf
 from ..anf import R, Unsupported
-from .common import purity_obligations, struct_ob, formula_ob, guard, last_return, U
+from .common import memo_obligations, refresh_obligation, dtype_hazard_obligations, purity_obligations, struct_ob, formula_ob, guard, last_return, U
 from .gpm import gp_expander, refs, mob, REL
 from ..report import AnalysisError
 from ..term import Resolver, pmatch
 
 COV = "inference/gp/covariance.py"
 MEAN = "inference/gp/mean.py"
-FLOORS = {"mean-gradient-depends": 2, "mean-gradient-form": 3, "kernel-derivative-terms": 2,
+FLOORS = {"state-refreshed": 1, "float-arithmetic": 3, "mean-gradient-depends": 2, "mean-gradient-form": 3, "kernel-derivative-terms": 2,
           "gradient-cov-rank": 1, "variance-derivative-form": 1, "gradient-mean-form": 2, "arguments-not-mutated": 12}
 
 
@@ -230,6 +230,12 @@ def run(prog, tier):
         hier += [prog.cls(b)] + prog.subclasses(b)
     obs.extend(purity_obligations(prog, "arguments-not-mutated", hier, methods=("gradient", "gradient_terms", "__call__")))
     obs.extend(purity_obligations(prog, "arguments-not-mutated", [prog.cls("GpRegressor")], methods=("gradient", "spatial_derivatives")))
+
+    obs.extend(dtype_hazard_obligations(prog, "float-arithmetic", ['inference/gp/regression.py', 'inference/gp/mean.py', 'inference/gp/covariance.py']))
+
+    obs.append(refresh_obligation(prog, "state-refreshed", "GpRegressor", "set_hyperparameters"))
+
+    obs.extend(memo_obligations(prog, "cache-key", [c for b in ("CovarianceFunction", "MeanFunction") for c in [prog.cls(b)] + prog.subclasses(b)] + [prog.cls("GpRegressor")]))
 
     meta = {
         "explanation": "Must-depend rule (transitive def-use) for the mean function's contribution; matrix normal form of both mean "
